@@ -535,6 +535,7 @@ def run_replay(prop, path):
 def main(argv=None):
     ap = argparse.ArgumentParser(prog="check")
     ap.add_argument("prop")
+    ap.add_argument("extra", nargs="*")
     ap.add_argument("--tier", default=os.environ.get("VERIF_TIER", "quick"), choices=["quick", "thorough"])
     ap.add_argument("--replay")
     ap.add_argument("--jobs", type=int, default=int(os.environ.get("VERIF_JOBS", "0")) or min(16, os.cpu_count() or 4))
